@@ -6,6 +6,7 @@ import (
 	"bytes"
 	"crypto/tls"
 	"fmt"
+	"os"
 	"sort"
 	"sync"
 	"testing"
@@ -409,6 +410,95 @@ func TestVfC13SlowSegments(t *testing.T) {
 		}
 		st.Case(vfkit.Fingerprint(fmt.Sprint(plans)), skewed, nil, func() any {
 			return map[string]any{"plans": fmt.Sprint(plans)}
+		})
+	})
+}
+
+// TestVfC13CounterAfterRefusals: the in-flight counter of a connection counts queries in flight and nothing else. A
+// connection whose queries were refused - by the concurrency limit or by the rate limiter - is served again as soon as
+// nothing is in flight and the client is back within its budget; REFUSED is for queries *beyond* the limit only.
+func TestVfC13CounterAfterRefusals(t *testing.T) {
+	st := vfkit.Stats("TestVfC13CounterAfterRefusals", "tcp / gnet / tls listeners with max_concurrent_queries in {2,5} and a client rate limiter (30/s, burst 30); per case one connection from a fresh /24: 20-70 pipelined queries (each answered NOERROR or REFUSED, exactly one frame per query), 1.3 s of quiet (bucket refilled, nothing in flight), then max_concurrent sequential queries; oracle: every one of the later queries is answered NOERROR; non-trivial = at least max_concurrent queries of the burst were refused")
+	defer vfkit.Flush()
+	block := NextIPBlock()
+	up, err := StartUpstream("udp", "up", block+"2", 0, nil, func(q *UpQuery) UpAction {
+		return UpAction{Reply: EncodeMsg(KeyedAnswer(q.Msg, "c13r", 0, 60, 0))}
+	})
+	if err != nil {
+		t.Fatal(err)
+	}
+	defer up.Close()
+	proxies := map[int]*Proxy{}
+	ips := map[int]string{}
+	for i, mc := range []int{2, 5} {
+		pip := block + itoa(10+i)
+		cfg := &Config{Servers: StdServers(pip, []string{"tcp", "gnet", "tls"}, ""), Upstreams: []UpstreamCfg{{Tag: "up", Addr: up.Addr()}}, Rules: []Rule{{Forward: "up"}},
+			Limiter: &LimiterCfg{Client: &ClientLimiterCfg{Limit: 30, Burst: 30}}}
+		for j := range cfg.Servers {
+			cfg.Servers[j].Tcp = &TcpCfg{MaxConcurrentQueries: mc}
+		}
+		p, err := StartProxy(cfg.YAML(), nil, ProxyOpts{})
+		if err != nil {
+			t.Fatal(err)
+		}
+		defer p.Cleanup()
+		proxies[mc], ips[mc] = p, pip
+	}
+	seq := 0
+	rapid.Check(t, func(t *rapid.T) {
+		seq++
+		listener := rapid.SampledFrom([]string{"tcp", "gnet", "tls"}).Draw(t, "listener")
+		mc := rapid.SampledFrom([]int{2, 5}).Draw(t, "maxConcurrent")
+		k := rapid.IntRange(20, 70).Draw(t, "k")
+		src := fmt.Sprintf("127.%d.%d.9", 60+(os.Getpid()+seq/250)%60, seq%250+1)
+		var tcfg *tls.Config
+		if listener == "tls" {
+			tcfg = &tls.Config{InsecureSkipVerify: true}
+		}
+		c, err := DialStream(src, fmt.Sprintf("%s:%d", ips[mc], ListenerPorts[listener]), tcfg, 3*time.Second)
+		if err != nil {
+			t.Fatalf("dial %s: %v", listener, err)
+		}
+		defer c.Close()
+		var stream []byte
+		for i := 0; i < k; i++ {
+			stream = append(stream, frame(Query(uint16(i), vfkit.Name{[]byte(fmt.Sprintf("r%dq%dp%d", seq, i, os.Getpid())), []byte("c13r"), []byte("test")}, 1, 1, false))...)
+		}
+		c.C.Write(stream)
+		frames, rest, closed := c.ReadFrames(k, 5*time.Second)
+		desc := fmt.Sprintf("listener=%s max_concurrent=%d burst of %d from %s", listener, mc, k, src)
+		if len(frames) != k || len(rest) != 0 {
+			t.Fatalf("%d response frames (+%d stray octets, closed=%v) for %d pipelined queries; %s", len(frames), len(rest), closed, k, desc)
+		}
+		refused := 0
+		seen := map[uint16]bool{}
+		for _, f := range frames {
+			if !f.Msg.Clean() || seen[f.Msg.ID] || int(f.Msg.ID) >= k || (f.Msg.Rcode() != 0 && f.Msg.Rcode() != 5) {
+				t.Fatalf("unexpected response %s; %s", f.Msg.Msg.String(), desc)
+			}
+			seen[f.Msg.ID] = true
+			if f.Msg.Rcode() == 5 {
+				refused++
+			}
+		}
+		time.Sleep(1300 * time.Millisecond)
+		for i := 0; i < mc; i++ {
+			id := uint16(1000 + i)
+			c.C.Write(frame(Query(id, vfkit.Name{[]byte(fmt.Sprintf("r%dlater%dp%d", seq, i, os.Getpid())), []byte("c13r"), []byte("test")}, 1, 1, false)))
+			fr, _, cl := c.ReadFrames(1, 3*time.Second)
+			if len(fr) != 1 || fr[0].Msg.ID != id || fr[0].Msg.Rcode() != 0 {
+				rc := -1
+				if len(fr) == 1 {
+					rc = fr[0].Msg.Rcode()
+				}
+				t.Fatalf("query %d sent alone on the connection, 1.3 s after a burst of which %d were refused, got rcode %d (frames %d, closed %v): nothing is in flight and the client is within its budget, so it is not beyond any limit; %s", i, refused, rc, len(fr), cl, desc)
+			}
+		}
+		if cr := proxies[mc].Crashed(); cr != "" {
+			t.Fatalf("proxy crashed: %s", cr)
+		}
+		st.Case(vfkit.Fingerprint(listener, mc, k, seq), refused >= mc, []string{"listener=" + listener}, func() any {
+			return map[string]any{"listener": listener, "max_concurrent": mc, "k": k, "refused_in_burst": refused}
 		})
 	})
 }
